@@ -39,6 +39,7 @@ def main():
     for v in need:
         build_sut.build(v)
     build_sut.build_ref()
+    build_sut.build_fsx()
     sweep_stale()
     rc = mod.main(a.tier)
     sys.stdout.flush()
